@@ -20,6 +20,7 @@
     one object per row, each object being the key/value map the row was written from.
   Not claimed: two select-list columns with the same text share one JSON key (known finding D19; the
   theorems speak about `rowMap`, which keeps the last value of a repeated key).
+  * `list_document_roundtrip` — the `into list` output split at NUL is all the cells of all the rows, in order;
   * `html_text_in_context`, `html_row_roundtrip`, `html_document_roundtrip` — header, one `<tr>` per row with
     one `<td>` per value, footer is read back as the list of rows, each cell unescaped to its value.
   That the four result paths emit header/rows/separators/footer in this shape is
@@ -913,5 +914,50 @@ theorem json_document_roundtrip (f w : Nat) (rows : List (List (Str × Str)))
 
 /-- a row with distinct, sorted column names is its own map (so the object lists exactly the row) -/
 example : rowMap [(ofS "name", ofS "a\"b"), (ofS "size", ofS "1")] = [(ofS "name", ofS "a\"b"), (ofS "size", ofS "1")] := by decide
+
+/-- the cells of a `list` / `tabs`-like document whose every cell is closed by the separator: splitting at the
+    separator returns all the cells in order, followed by one empty piece -/
+theorem split_terminated (sep : Char) (cells : List Str) (h : ∀ v ∈ cells, ∀ c ∈ v, c ≠ sep) :
+    splitChar.go sep (cells.flatMap fun v => v ++ [sep]) [] = cells ++ [[]] := by
+  induction cells with
+  | nil => rfl
+  | cons v vs ih =>
+    simp only [List.flatMap_cons, List.append_assoc, List.singleton_append]
+    rw [splitChar_go_append sep v (h v (by simp)) _ []]
+    rw [ih (fun x hx => h x (by simp [hx]))]
+    simp
+
+theorem flatRow_list (vals : List Str) (hne : vals ≠ []) :
+    flatRow (Char.ofNat 0) (Char.ofNat 0) vals = vals.flatMap fun v => v ++ [Char.ofNat 0] := by
+  unfold flatRow
+  induction vals with
+  | nil => exact absurd rfl hne
+  | cons v vs ih =>
+    cases vs with
+    | nil => simp [joinWith]
+    | cons w ws =>
+      have := ih (by simp)
+      simp only [joinWith_cons2, List.flatMap_cons, List.append_assoc] at this ⊢
+      rw [this]
+
+/-- **the `into list` output carries exactly the result table**: every value closed by a NUL, row after row —
+    splitting the output at NUL returns all the cells of all the rows in order (then one empty piece), for every
+    table whose values contain no NUL (file names and rendered values never do) -/
+theorem list_document_roundtrip (rows : List (List Str)) (hne : ∀ r ∈ rows, r ≠ [])
+    (h : ∀ r ∈ rows, ∀ v ∈ r, ∀ c ∈ v, c ≠ Char.ofNat 0) :
+    splitChar (Char.ofNat 0) (rows.flatMap (flatRow (Char.ofNat 0) (Char.ofNat 0))) = rows.flatten ++ [[]] := by
+  have hdoc : rows.flatMap (flatRow (Char.ofNat 0) (Char.ofNat 0)) = rows.flatten.flatMap fun v => v ++ [Char.ofNat 0] := by
+    induction rows with
+    | nil => rfl
+    | cons r rs ih =>
+      simp only [List.flatMap_cons, List.flatten_cons, List.flatMap_append]
+      rw [flatRow_list r (hne r (by simp)), ih (fun q hq => hne q (by simp [hq])) (fun q hq => h q (by simp [hq]))]
+  unfold splitChar
+  rw [hdoc]
+  apply split_terminated
+  intro v hv
+  simp only [List.mem_flatten] at hv
+  obtain ⟨r, hr, hvr⟩ := hv
+  exact h r hr v hvr
 
 end Fsel.C09
